@@ -1111,7 +1111,7 @@ func moreRangeArith(p *Program, r *Report, rule, fn string, validIdx int) {
 	f := p.Func(fn)
 	var size *ssa.Parameter
 	for _, prm := range f.Params {
-		if prm.Name() == "size" {
+		if refParamName(prm) == "size" {
 			size = prm
 		}
 	}
@@ -1286,9 +1286,10 @@ func modelRangeCall(p *Program, r *Report, rule string, f *ssa.Function, parser 
 func (m *rangeModel) sectionReaderObligations(p *Program, r *Report, rule string, f *ssa.Function) int {
 	a := m.a
 	nSec := 0
-	for _, sc := range callsTo(f, "io.NewSectionReader") {
+	for _, sec := range sectionCallsIn(f) {
 		nSec++
-		args := callArgs(sc)
+		sc := sec.call
+		args := []ssa.Value{nil, sec.off, sec.length}
 		key := fnName(f) + "/section-reader#" + itoa(nSec)
 		ok1, w := a.equalAt(sc.Block(), func(pt *part) (lin, bool) { return a.linIn(args[1], pt) }, func(pt *part) (lin, bool) { return linSym(m.sS), true })
 		r.Check(ok1, rule, key+":offset==start", p.Pos(sc.Pos()), "window starts at the parsed start", "the body window does not start at the parsed start ("+w+")")
@@ -1697,7 +1698,32 @@ func noDashText(f *ssa.Function, use ssa.Instruction, v ssa.Value, seen map[ssa.
 				clean = append(clean, ce.fails)
 			}
 		}
-		return len(clean) > 0 && !reachable(f, nil, clean)[use.Block()]
+		if len(clean) > 0 && !reachable(f, nil, clean)[use.Block()] {
+			return true
+		}
+		// or: the text that is cut holds exactly one separator (strings.Count(x, "-") == 1 guards the Cut)
+		var once []edge
+		for _, ce := range condEdgesOf(f) {
+			if !ce.isEqNeq || ce.binop == nil {
+				continue
+			}
+			for _, pr := range [][2]ssa.Value{{ce.binop.X, ce.binop.Y}, {ce.binop.Y, ce.binop.X}} {
+				cnt, ok := pr[0].(*ssa.Call)
+				if !ok || calleeName(cnt) != "strings.Count" {
+					continue
+				}
+				if one, ok := constInt(pr[1]); !ok || one != 1 {
+					continue
+				}
+				if sep, ok := constString(cnt.Call.Args[1]); !ok || sep != "-" {
+					continue
+				}
+				if cnt.Call.Args[0] == cut.Call.Args[0] {
+					once = append(once, ce.holds)
+				}
+			}
+		}
+		return len(once) > 0 && !reachable(f, nil, once)[cut.Block()]
 	}
 	return false
 }
